@@ -32,7 +32,8 @@ Inductive inner : Type := IG (g : gstate) | IC (c : cstate).
 Definition inner_graph (i : inner) : gstate := match i with IG g => g | IC c => c_g c end.
 
 (* the outer Graph, the inner builders by name, and which node of the outer graph holds which of them *)
-Record nstate : Type := mkN { ns_out : gstate; ns_inn : list (string * inner); ns_att : list (string * string) }.
+(* [ns_att]: node key -> the inner builder it holds and the compile options of the node (WithGraphCompileOptions) *)
+Record nstate : Type := mkN { ns_out : gstate; ns_inn : list (string * inner); ns_att : list (string * (string * copt)) }.
 Definition n_init (has_state : bool) : nstate := mkN (g_init CGraph has_state) [] [].
 
 (* what a case creates an inner builder as: a Graph with one lambda node "s" ([SKGraph true]: entry and exit edge as
@@ -56,17 +57,17 @@ Definition istep (i : inner) (c : icall) : inner * outcome :=
   | _, _ => (i, OOk)
   end.
 
-(* AnyGraph.compile of a child, with its node's options (none): graph.compile, or Chain.compile = addEndIfNeeded +
+(* AnyGraph.compile of a child, with its node's options: graph.compile, or Chain.compile = addEndIfNeeded +
    graph.compile — the function the public Compile of that builder runs *)
-Definition inner_compile (i : inner) : inner * outcome :=
+Definition inner_compile (i : inner) (oc : copt) : inner * outcome :=
   match i with
-  | IG g => let '(g', o) := g_compile fixed g opt_default in (IG g', o)
-  | IC ch => let '(ch', o) := c_compile fixed ch opt_default in (IC ch', o)
+  | IG g => let '(g', o) := g_compile fixed g oc in (IG g', o)
+  | IC ch => let '(ch', o) := c_compile fixed ch oc in (IC ch', o)
   end.
 
 Inductive ncall : Type :=
 | NOuter (c : gcall)                       (* a call on the outer Graph *)
-| NSub (k id : string) (kd : skind)        (* outer.AddGraphNode(k, inner[id]); inner[id] is created on first use *)
+| NSub (k id : string) (kd : skind) (oc : copt) (* outer.AddGraphNode(k, inner[id], WithGraphCompileOptions(oc)); inner[id] is created on first use *)
 | NInner (id : string) (c : icall).        (* a call on inner[id] (Add* / Append* or its own Compile) *)
 
 (* graph.compile gets as far as compiling its nodes: every earlier test (build error, option, entry / exit,
@@ -81,16 +82,16 @@ Definition reaches_children (g : gstate) (o : copt) : bool :=
     && negb (has_untyped g) && negb (existsb (fun kf => has_dup (snd kf)) (g_fm g))
   end.
 
-(* the children in the given order, each compiled with its node's options (none); stops at the first
+(* the children in the given order, each compiled with the options of its node; stops at the first
    child that does not compile *)
-Fixpoint compile_children (ids : list string) (inn : list (string * inner)) : list (string * inner) * option outcome :=
+Fixpoint compile_children (ids : list (string * copt)) (inn : list (string * inner)) : list (string * inner) * option outcome :=
   match ids with
   | [] => (inn, None)
-  | id :: rest =>
+  | (id, oc) :: rest =>
     match nlookup id inn with
     | None => compile_children rest inn
     | Some gi =>
-      let '(gi', o) := inner_compile gi in
+      let '(gi', o) := inner_compile gi oc in
       match o with
       | OCompiled _ => compile_children rest (nupdate id gi' inn)
       | _ => (nupdate id gi' inn, Some o)
@@ -98,8 +99,8 @@ Fixpoint compile_children (ids : list string) (inn : list (string * inner)) : li
     end
   end.
 
-Definition children_of (s : nstate) (keys : list string) : list string :=
-  flat_map (fun k => match nlookup k (ns_att s) with Some id => [id] | None => [] end) keys.
+Definition children_of (s : nstate) (keys : list string) : list (string * copt) :=
+  flat_map (fun k => match nlookup k (ns_att s) with Some ic => [ic] | None => [] end) keys.
 
 (* graph.compile of the outer graph, its nodes visited in the order [keys] *)
 Definition n_compile_in (keys : list string) (s : nstate) (o : copt) : nstate * outcome :=
@@ -118,10 +119,10 @@ Definition nstep (s : nstate) (c : ncall) : nstate * outcome :=
   match c with
   | NOuter (GCompile o) => n_compile_in (sorted_keys (ns_out s)) s o
   | NOuter c' => let '(g', o) := gstep fixed (ns_out s) c' in (mkN g' (ns_inn s) (ns_att s), o)
-  | NSub k id kd =>
+  | NSub k id kd oc =>
     let inn := match nlookup id (ns_inn s) with Some _ => ns_inn s | None => ns_inn s ++ [(id, inner_init kd)] end in
     let '(g', o) := g_add_node (ns_out s) k NSubOk false false false in
-    (mkN g' inn (match o with OOk => ns_att s ++ [(k, id)] | _ => ns_att s end), o)
+    (mkN g' inn (match o with OOk => ns_att s ++ [(k, (id, oc))] | _ => ns_att s end), o)
   | NInner id c' =>
     match nlookup id (ns_inn s) with
     | None => (s, OOk)
